@@ -27,6 +27,7 @@ import (
 	"verifharness/internal/c19"
 	"verifharness/internal/c20"
 	"verifharness/internal/common"
+	"verifharness/internal/corpus"
 	"verifharness/internal/inventory"
 	"verifharness/internal/synth"
 )
@@ -34,26 +35,27 @@ import (
 type sub func(tier string, seed int64, outDir string) *common.Meta
 
 var subs = map[string]sub{
-	"c04": c04.Run,
-	"c01": c01.Run,
-	"c06": c06.Run,
-	"c07": c07.Run,
-	"c20": c20.Run,
-	"c02": c02.Run,
-	"c03": c03.Run,
-	"c05": c05.Run,
-	"c13": c13.Run,
-	"c10": c10.Run,
-	"c12": c12.Run,
-	"c08": c08.Run,
-	"c09": c09.Run,
-	"c14": c14.Run,
-	"c15": c15.Run,
-	"c16": c16.Run,
-	"c17": c17.Run,
-	"c18": c18.Run,
-	"c19": c19.Run,
-	"c11": c11.Run,
+	"crashrun": corpus.ChildRun, // isolated child process of the C01/C07/C20 oracle run
+	"c04":      c04.Run,
+	"c01":      c01.Run,
+	"c06":      c06.Run,
+	"c07":      c07.Run,
+	"c20":      c20.Run,
+	"c02":      c02.Run,
+	"c03":      c03.Run,
+	"c05":      c05.Run,
+	"c13":      c13.Run,
+	"c10":      c10.Run,
+	"c12":      c12.Run,
+	"c08":      c08.Run,
+	"c09":      c09.Run,
+	"c14":      c14.Run,
+	"c15":      c15.Run,
+	"c16":      c16.Run,
+	"c17":      c17.Run,
+	"c18":      c18.Run,
+	"c19":      c19.Run,
+	"c11":      c11.Run,
 }
 
 var gens = map[string]func(outDir string) error{
